@@ -53,9 +53,9 @@ func c18Values(tier string) [][]string {
 	var out [][]string
 	add := func(v ...string) { out = append(out, v) }
 	alpha := []string{"0", "1", "9", "-", "+", " ", "H", "S", "m", "n", "x"}
-	maxLen := 3
+	maxLen := 4
 	if tier == "thorough" {
-		maxLen = 4
+		maxLen = 5
 	}
 	var gen func(prefix string, l int)
 	gen = func(prefix string, l int) {
@@ -268,7 +268,7 @@ func c18Class(v string) string {
 
 func init() {
 	register(&PropDef{ID: "C18", Level: "exploration",
-		Rule: "one execution per grpc-timeout header value list from an explicit finite set (all strings of length <= 3 (quick) / <= 4 (thorough) over {0,1,9,-,+,space,H,S,m,n,x}; per unit all-9 / 10^k / leading-zero digit strings of every length 1..20 and the int64 overflow boundary -1/0/+1; unit and case confusions; repeated headers); the handler's ctx.Deadline() minus virtual now must equal the gRPC wire specification's decoding (saturating), malformed values must yield no deadline; the same for 15 values on forward and reverse tunnels that were themselves opened with a one-hour deadline (expected: the sooner of the two); non-trivial = the case reached the handler and the tunnel served a second RPC afterwards",
+		Rule: "one execution per grpc-timeout header value list from an explicit finite set (all strings of length <= 4 (quick) / <= 5 (thorough) over {0,1,9,-,+,space,H,S,m,n,x}; per unit all-9 / 10^k / leading-zero digit strings of every length 1..20 and the int64 overflow boundary -1/0/+1; unit and case confusions; repeated headers); the handler's ctx.Deadline() minus virtual now must equal the gRPC wire specification's decoding (saturating), malformed values must yield no deadline; the same for 15 values on forward and reverse tunnels that were themselves opened with a one-hour deadline (expected: the sooner of the two); non-trivial = the case reached the handler and the tunnel served a second RPC afterwards",
 		Assumptions: []string{"virtual clock of testing/synctest does not advance during the execution (no clock ticks are scheduled), so deadline minus now is exact",
 			"reference decoder transcribed from the gRPC HTTP/2 wire spec (Timeout = 1..8 digits + unit) and cross-checked with grpc-go's decodeTimeout"},
 		Scenarios: c18Scenarios})
